@@ -60,6 +60,9 @@ type Gen struct {
 	Accepted [][]byte // raw bytes of accepted transactions (for replays)
 	Rejected [][]byte
 	Checks   []*IssuedCheck
+	// SigsBy: signature data of accepted single-signature transactions per signer (for the
+	// signature-transplant perturbation)
+	SigsBy map[types.Address][][]byte
 	newCoin  int
 	newCand  int
 	MsigCnt  int
@@ -1110,6 +1113,23 @@ func (g *Gen) IssueCheck(t *rapid.T) *IssuedCheck {
 	}
 	pass := U(t, "chkPass", 4)
 	ic := SignCheck(c, GetUser(issuer).Key, PassKey(pass))
+	if U(t, "chkOddLock", 12) == 0 {
+		// a lock that is not a 65-byte signature (shorter, longer, much longer), properly signed by the issuer
+		n := rapid.SampledFrom([]int{0, 1, 33, 64, 66, 67, 97, 130, 300}).Draw(t, "chkLockLen")
+		lock := make([]byte, n)
+		for i := range lock {
+			lock[i] = byte(1 + (i*37+n)%255)
+		}
+		c.Lock = new(big.Int).SetBytes(lock)
+		if err := c.Sign(GetUser(issuer).Key); err != nil {
+			panic(err)
+		}
+		raw, err := rlp.EncodeToBytes(c)
+		if err != nil {
+			panic(err)
+		}
+		ic = &IssuedCheck{Check: c, Raw: raw}
+	}
 	ic.Issuer, ic.Pass = issuer, pass
 	g.Checks = append(g.Checks, ic)
 	return ic
@@ -1208,6 +1228,13 @@ func (g *Gen) finish(t *rapid.T, s *spec) *TxMeta {
 			panic(err)
 		}
 		m.Signers = []int{s.sender.Idx}
+		// a signature copied from an earlier accepted transaction of the same account onto this
+		// (different) body: valid signature bytes that do not authorize this transaction
+		if sigs := g.SigsBy[sender]; len(sigs) > 0 && U(t, "sigTransplant", 30) == 0 {
+			txo.SignatureData = append([]byte(nil), pick(t, "sigFrom", sigs)...)
+			m.Perturbed = "sig-transplant"
+			m.Signers = nil
+		}
 	} else {
 		txo.SignatureType = tx.SigTypeMulti
 		txo.SetMultisigAddress(*s.msig)
